@@ -7,7 +7,7 @@ ERR = {'EValue': 'EValue', 'EType': 'EType', 'ECacheIndex': 'ECacheIndex', 'ECon
 STATUS = {'created': 'SCreated', 'inserted': 'SInserted', 'updated': 'SUpdated', 'modified': 'SModified', 'marked_to_delete': 'SMarked',
           'deleted': 'SDeleted', 'cancelled': 'SCancelled', 'loaded': 'SInserted'}
 # codes 0-2 were the Entity.set sites repaired by repo cd0fda9 (kept as placeholders so the other codes stay stable)
-TAINTS = ['retired-0', 'retired-1', 'retired-2', 'TSetReverse', 'TRemFlag', 'TDelNested', 'TNewPk', 'TDelCreated', 'TInconsistent']
+TAINTS = ['retired-0', 'retired-1', 'retired-2', 'retired-3', 'retired-4', 'retired-5', 'retired-6', 'retired-7', 'TInconsistent']
 KIND = {'pk': 'KPk', 'int': 'KInt', 'ref': 'KRef', 'set': 'KSet'}
 
 
